@@ -125,9 +125,25 @@ func main() {
 			}
 			return
 		}
-		emit(c)
+		switch {
+		case c.Search != nil:
+			EmitSearch(r, c, false)
+		case c.Live:
+			searchEmitPlain(c, "live-replay", 20)
+		case c.NextID > 0:
+			searchEmitPlain(c, "id-wrap-replay", 1)
+		default:
+			emit(c)
+		}
 		r.Sample(c)
 		return
+	}
+	if r.Search {
+		searchLegs()
+		if r.Failed() {
+			r.Note("the search legs found a failing input; the ordinary generators were not run again")
+			return
+		}
 	}
 	// the real worker goroutine, ticker and select loop, for a fraction of a second (loose bounds only)
 	for _, kind := range []string{"wheel", "heap"} {
